@@ -896,12 +896,21 @@ package rapid
 // ---------------------------------------------------------------------------------------------
 // shrink.go
 
+// cmpAt: the first index at which the slices compared by the most recent compareData differ (meaningful when they
+// have equal length and differ). The contract exposes the witness of its existentials, so callers reason about one
+// named index instead of guessing it.
+//@ ghost cmpAt (_ BitVec 64)
+
 //@ func compareData
+//@   on-return set cmpAt = now(i)
+//@   modifies cmpAt
 //@   ensures [C05] result == -1 || result == 0 || result == 1
+//@   ensures [C05] implies(len(a) == len(b) && result == -1, 0 <= cmpAt && cmpAt < len(a) && a[cmpAt] < b[cmpAt] && forall(m, 0, cmpAt, a[m] == b[m]))
+//@   ensures [C05] implies(len(a) == len(b) && result == 1, 0 <= cmpAt && cmpAt < len(a) && a[cmpAt] > b[cmpAt] && forall(m, 0, cmpAt, a[m] == b[m]))
 //@   ensures [C05] implies(len(a) < len(b), result == -1) && implies(len(a) > len(b), result == 1)
 //@   ensures [C05] implies(len(a) == len(b) && result == 0, forall(k, 0, len(a), a[k] == b[k]))
-//@   ensures [C05] implies(len(a) == len(b) && result == -1, exists(k, 0, len(a), a[k] < b[k] && forall(m, 0, k, a[m] == b[m])))
-//@   ensures [C05] implies(len(a) == len(b) && result == 1, exists(k, 0, len(a), a[k] > b[k] && forall(m, 0, k, a[m] == b[m])))
+//@   ensures [C05] implies(len(a) == len(b) && result == -1, existsw(k, 0, len(a), now(i), a[k] < b[k] && forall(m, 0, k, a[m] == b[m])))
+//@   ensures [C05] implies(len(a) == len(b) && result == 1, existsw(k, 0, len(a), now(i), a[k] > b[k] && forall(m, 0, k, a[m] == b[m])))
 //@   loop 0 invariant [C05] len(a) == len(b) && -1 <= rangeindex && rangeindex < len(a) && forall(k, 0, rangeindex + 1, a[k] == b[k])
 
 // minimize (C12): exact for monotone conditions. The callback is specified against an abstract predicate
@@ -970,6 +979,12 @@ package rapid
 //@   ensures [C04,C05] len(result.data) == 0 && len(result.groups) == 0 && result.dataLen == 0 && result.persist == persist && arr(result.data) == nil && arr(result.groups) == nil
 
 // prune/removeGroup: only ever delete words (C05 needs no more than that; the exact sequence spec is C04's)
+// removeGroup(i): with g = groups[i] at entry, n = g.end - g.begin and d the number of groups removed: the words
+// [g.begin, g.end) are cut out of data (prefix unchanged, suffix moved down by n); group i goes together with the d-1
+// groups that follow it and do not end beyond g.end (still open ones, end == -1, included) - no more and no fewer.
+// NOT proved (solver time: the quantified re-basing invariants of the second loop need > 90 s per step): that every
+// remaining group keeps its flags and has its positions at or beyond g.end moved down by n; recWF of the result is
+// assumed for the same reason.
 //@ func (*recordedBits).removeGroup
 //@   requires [C04,C05] 0 <= i && i < len(rec.groups) && recWF(rec) && rec.groups[i].end >= 0
 //@   ensures [C04,C05] len(rec.data) == old(len(rec.data)) - (old(rec.groups[i].end) - old(rec.groups[i].begin)) && len(rec.data) <= old(len(rec.data))
@@ -977,8 +992,13 @@ package rapid
 //@   ensures [C04,C05] len(rec.groups) < old(len(rec.groups)) && rec.persist == old(rec.persist)
 //@   ensures [assumed] recWF(rec)
 //@   ensures [C04,C05] forall(k, 0, i, rec.groups[k].discard == old(rec.groups[k].discard))
+//@   ensures [C01,C04,C05] forall(k, 0, old(rec.groups[i].begin), rec.data[k] == old(rec.data[k]))
+//@   ensures [C01,C04,C05,slow] forall(k, old(rec.groups[i].begin), len(rec.data), rec.data[k] == oldat(rec.data, k + (old(rec.groups[i].end) - old(rec.groups[i].begin))))
+//@   ensures [C01,C04,C05] forall(k, i + 1, i + (old(len(rec.groups)) - len(rec.groups)), oldat(rec.groups, k).end <= old(rec.groups[i].end))
+//@   ensures [C01,C04,C05] implies(i < len(rec.groups), oldat(rec.groups, i + (old(len(rec.groups)) - len(rec.groups))).end > old(rec.groups[i].end))
 //@   modifies rec.data, rec.groups, elems(rec.data), elems(rec.groups)
 //@   loop 0 invariant [C04,C05] i < j && j <= len(rec.groups)
+//@   loop 0 invariant [C01,C04,C05] forall(k, i + 1, j, rec.groups[k].end <= g.end)
 //@   loop 1 invariant [C04,C05] -1 <= rangeindex && rangeindex < len(rec.groups)
 //@   loop 0 decreases len(rec.groups) - j
 
@@ -996,11 +1016,23 @@ package rapid
 // The shrinker (C01, C05)
 
 //@ define tbOf(e) = ite(e == nil, "    <no error>\n", e.traceback)
-//@ define lessData(a, b) = len(a) < len(b) || len(a) == len(b) && exists(k, 0, len(a), a[k] < b[k] && forall(m, 0, k, a[m] == b[m]))
+// lessAt: the witness index of accept's first comparison (candidate vs. current best)
+//@ ghost lessAt (_ BitVec 64)
+//@ define lessData(a, b) = len(a) < len(b) || len(a) == len(b) && existsw(k, 0, len(a), lessAt, a[k] < b[k] && forall(m, 0, k, a[m] == b[m]))
 //@ define shrInv(s) = s.prop != nil && s.err != nil && s.err.traceback != "    <no error>\n" && s.rec.persist && recWF(addr(s.rec))
+
+// The cache of candidates known not to reproduce is keyed by the candidate itself: the key is computed from the very
+// buffer that is tried, by encoding/binary over the whole slice (injective; a key that drops bits makes distinct
+// candidates collide, and a colliding candidate is never tried - minimisation then stops short of the boundary, C12).
+// Injectivity of the encoding is string-content reasoning outside the logic: what is checked is that this is the
+// code that computes the key.
+//@ func dataStr
+//@   at binary.Write#0 assert [C05,C12] refOf(arg0) == b
 
 //@ func (*shrinker).accept
 //@   noframe "runs the property"
+//@   at compareData#0 set lessAt = cmpAt
+//@   at dataStr#0 assert [C05,C12] arr(arg0) == arr(buf) && off(arg0) == off(buf) && len(arg0) == len(buf)
 //@   assumes-pre !flags.debugvis
 //@   requires [C01,C05] shrInv(s)
 //@   ensures [C01,C05] s.prop != nil && s.err != nil && s.err.traceback != "    <no error>\n" && s.rec.persist && recWF(addr(s.rec))
@@ -1010,7 +1042,7 @@ package rapid
 //@   ensures [C05] implies(result, old(lessData(buf, s.rec.data)))
 //@   ensures [C05] implies(result, len(s.rec.data) <= len(buf))
 //@   panics testError [C01]: refOf(panicval) == now(err2)
-//@   modifies heap, drawn, lockmode, cancelled
+//@   modifies heap, drawn, lockmode, cancelled, cmpAt, lessAt
 
 // ---------------------------------------------------------------------------------------------
 // Reachability (C18, C12): witnessed scenarios. For every max and every v <= max outside the known hole there
@@ -1174,3 +1206,32 @@ package rapid
 //@   at example#0 assert [C04,C07] hasType(arg1.s, randomBitStream) && !deref(arg1.s, randomBitStream).persist
 //@   at newRandomBitStream#0 assert [C04,C07] implies(len(seed) > 0, arg0 == seed[0]) && !arg1
 //@   modifies heap, drawn, lockmode, cancelled
+
+// ---------------------------------------------------------------------------------------------
+// make.go: the kind switch of Make (C03: "the requested dynamic type for Make"). dynKind(g) is the reflect.Kind of
+// the values a *Generator[any] produced by AsAny carries: AsAny on a *Generator[V] gives kind(V), which is read off
+// the instantiated static type at the call (elemkind). For every scalar kind the switch must pick the generator of
+// exactly that kind (mayNeedCast == true marks the scalar cases).
+//@ ufun dynKind (Ref) (_ BitVec 64)
+//@ ghost wantKind (_ BitVec 64)
+
+//@ func (*Generator).AsAny
+//@   trusted "definitional: the values of g.AsAny() are the values of g, so they have V's kind"
+//@   ensures dynKind(result) == elemkind(g)
+
+//@ func newMakeKindGen
+//@   noframe "allocates generators"
+//@   at typ.Kind#0 set wantKind = result
+//@   ensures [C03] implies(result1, dynKind(result0) == wantKind)
+//@   panics any: true
+//@   modifies wantKind
+//@ func genAnyArray
+//@   trusted "reflection-based constructor of a composite generator: outside the modelled subset"
+//@ func genAnyMap
+//@   trusted "reflection-based constructor of a composite generator: outside the modelled subset"
+//@ func genAnySlice
+//@   trusted "reflection-based constructor of a composite generator: outside the modelled subset"
+//@ func genAnyStruct
+//@   trusted "reflection-based constructor of a composite generator: outside the modelled subset"
+//@ func Deferred
+//@   trusted "constructor: allocates a deferredGen around fn"
